@@ -11,6 +11,7 @@ package jqdiff
 
 import (
 	"bytes"
+	"context"
 	"encoding/json"
 	"fmt"
 	"math"
@@ -21,6 +22,7 @@ import (
 	"strconv"
 	"strings"
 	"testing"
+	"time"
 
 	"github.com/itchyny/gojq"
 	"pgregory.net/rapid"
@@ -117,7 +119,9 @@ func compare(src string, in any) (d string, skip bool) {
 		wv = append(wv, n)
 	}
 	inText, _ := json.Marshal(nin)
-	cmd := exec.Command("jq", "-c", src)
+	ctx, cancel := context.WithTimeout(context.Background(), 5*time.Second)
+	defer cancel()
+	cmd := exec.CommandContext(ctx, "jq", "-c", src)
 	cmd.Stdin = bytes.NewReader(inText)
 	var so, se bytes.Buffer
 	cmd.Stdout, cmd.Stderr = &so, &se
@@ -126,6 +130,9 @@ func compare(src string, in any) (d string, skip bool) {
 	if ee, ok := runErr.(*exec.ExitError); ok {
 		code = ee.ExitCode()
 	} else if runErr != nil {
+		return "", true
+	}
+	if ctx.Err() != nil {
 		return "", true
 	}
 	if code == 3 || code == 2 { // jq compile error / usage: outside the common language
